@@ -36,6 +36,9 @@ pub enum Ending {
     Hold,
     /// stream left open by the client without HEADERS: resolution stays pending until released
     NeverResolves,
+    /// the application parks the resolved stream in a collection that it clears in one go when released: all
+    /// these requests end between two polls of the connection
+    Batch,
 }
 
 #[derive(Debug, Clone, PartialEq)]
@@ -115,9 +118,16 @@ impl Check for C09 {
         }
     }
     fn run(&self, ctx: &RunCtx) -> RunOut {
-        let k = draw_usize(5);
-        let all = [Ending::Normal, Ending::DropResolver, Ending::FinFirst, Ending::ResetBeforeHeaders, Ending::ResetAfterHeaders, Ending::Malformed, Ending::Oversized, Ending::SplitDrop, Ending::Hold, Ending::NeverResolves, Ending::Normal];
-        let endings: Vec<Ending> = (0..k).map(|_| pick(&all).clone()).collect();
+        // one run in sixteen: a burst of 17-24 requests that the application lets go of in one step (the property
+        // speaks of every request handed out; nothing in it depends on there being at most four)
+        let burst = draw(16) == 15;
+        let k = if burst { 17 + draw_usize(8) } else { draw_usize(5) };
+        let all = [Ending::Normal, Ending::DropResolver, Ending::FinFirst, Ending::ResetBeforeHeaders, Ending::ResetAfterHeaders, Ending::Malformed, Ending::Oversized, Ending::SplitDrop, Ending::Hold, Ending::NeverResolves, Ending::Normal, Ending::Batch];
+        let endings: Vec<Ending> = (0..k).map(|_| if burst { Ending::Batch } else { pick(&all).clone() }).collect();
+        if burst {
+            obs::count("probe.burst_of_requests_ended_in_one_step");
+        }
+        let batch: Rc<RefCell<Vec<Box<dyn std::any::Any>>>> = Default::default();
         let mut cfg = NetCfg::drawn();
         // one run in three: streams surface in the order their first bytes arrive (legal for an h3::quic
         // backend) and the peer writes its requests in a drawn order, so stream 4 may be accepted before 0
@@ -201,6 +211,7 @@ impl Check for C09 {
             let log = log.clone();
             let endings = endings.clone();
             let release = release.clone();
+            let batch = batch.clone();
             ex.spawn("server", async move {
                 let mut b = h3::server::builder();
                 b.send_grease(draw(2) == 1);
@@ -259,6 +270,7 @@ impl Check for C09 {
                             let live = Rc::new(Live { id, log: log.clone() });
                             let ending = endings.get((id >> 2) as usize).cloned().unwrap_or(Ending::Normal);
                             let release = release.clone();
+                            let batch = batch.clone();
                             exec::spawn(format!("req{id}"), async move {
                                 let live = live; // dropped when this task (and the tasks it hands clones to) let go
                                 if ending == Ending::DropResolver {
@@ -310,6 +322,7 @@ impl Check for C09 {
                                         release.wait().await;
                                         drop(s);
                                     }
+                                    Ending::Batch => batch.borrow_mut().push(Box::new((s, live.clone()))),
                                     _ => {
                                         let r = async {
                                             while s.recv_data().await?.is_some() {}
@@ -383,13 +396,14 @@ impl Check for C09 {
             return RunOut::fail(Violation::new("C09.step_cap", "no quiescence".to_string()));
         }
         obs::note(|| format!("endings {:?} goaway at script position {goaway_pos}; log after phase 1 {:?}", endings, log.borrow()));
-        let held = endings.iter().any(|e| matches!(e, Ending::Hold | Ending::NeverResolves));
+        let held = endings.iter().any(|e| matches!(e, Ending::Hold | Ending::NeverResolves | Ending::Batch));
         if let Some(v) = oracle(&log.borrow(), "1", held, true) {
             return RunOut::fail(v);
         }
         // phase 2: the application lets go of what it was holding
         obs::ev("phase.release", 0, 0);
         release.open();
+        batch.borrow_mut().clear();
         let stop = ex.run(&mut NetWorld(net.clone()));
         if let Some(r) = check_panic(&ex) {
             return r;
@@ -407,7 +421,7 @@ impl Check for C09 {
                 Ending::FinFirst => obs::count("probe.fin_before_headers"),
                 Ending::ResetBeforeHeaders => obs::count("probe.reset_before_headers"),
                 Ending::SplitDrop => obs::count("probe.split_halves_dropped_separately"),
-                Ending::Hold | Ending::NeverResolves => obs::count("probe.request_held_across_goaway"),
+                Ending::Hold | Ending::NeverResolves | Ending::Batch => obs::count("probe.request_held_across_goaway"),
                 _ => {}
             }
         }
